@@ -166,7 +166,7 @@ class FakeSock:
         self.pending_eof = False
         # server -> client
         self.frames = []             # every reply frame the server produced, in order (before drops)
-        self.rxq = []                # [ [frame_ordinal, bytearray remaining] ... ] deliverable, in order
+        self.rxq = []                # [ [frame_ordinal, bytearray remaining, frame length] ... ] deliverable, in order
         self.delivered = 0
         self.delivered_log = bytearray()
         self.frames_complete = set() # ordinals of frames whose last byte has been delivered
@@ -256,7 +256,7 @@ class FakeSock:
             allowed = min(allowed, 1)
         out = bytearray()
         while self.rxq and len(out) < allowed:
-            j, buf = self.rxq[0]
+            j, buf, _total = self.rxq[0]
             n = min(len(buf), allowed - len(out))
             out += buf[:n]
             del buf[:n]
@@ -293,7 +293,7 @@ class FakeSock:
             j = len(self.frames)
             self.frames.append(bytes(f))
             if j not in self.drop:
-                self.rxq.append([j, bytearray(f)])
+                self.rxq.append([j, bytearray(f), len(f)])
 
     def run_pending(self):
         """lazy scheduling: let the server see what the client has sent so far (all of it, or one chunk)"""
@@ -328,7 +328,12 @@ class FakeSock:
 
     @property
     def undelivered(self):
-        return sum(len(b) for _, b in self.rxq)
+        return sum(len(e[1]) for e in self.rxq)
+
+    @property
+    def mid_frame(self):
+        """True when delivery stopped inside a reply frame (its first bytes were delivered, its last were not)"""
+        return bool(self.rxq) and len(self.rxq[0][1]) < self.rxq[0][2]
 
 
 # --------------------------------------------------------------------------------------------------
